@@ -85,6 +85,11 @@ type c03fScenario struct {
 	MinPool   int       `json:"min_pool"`
 	ToDel     int       `json:"to_del"`
 	Faults    []int     `json:"faults,omitempty"`
+	// Replay > 0: on every wanted interface the answer of an earlier assign request was
+	// lost after the cloud had executed it; its addresses have since been recorded by a
+	// full sync (1: and pods were bound to them, 2: they are idle). The cloud replays
+	// that answer to the next assign request with the same interface and count.
+	Replay int `json:"replay,omitempty"`
 }
 
 func c03fUID(pod, kind int) string {
@@ -189,6 +194,7 @@ func c03fGen(t *rapid.T) c03fScenario {
 			s.RT = append(s.RT, r)
 		}
 	}
+	s.Replay = rapid.SampledFrom([]int{0, 0, 0, 1, 1, 2}).Draw(t, "replay")
 	nf := rapid.IntRange(0, 5).Draw(t, "nFaults")
 	for i := 0; i < nf; i++ {
 		s.Faults = append(s.Faults, rapid.SampledFrom([]int{0, 0, 1, 1, 2}).Draw(t, "fault"))
@@ -207,13 +213,13 @@ func (c03fRecorder) AnnotatedEventf(object runtime.Object, annotations map[strin
 }
 
 type c03fWorld struct {
-	takeover []string  // pods that report an address the record has not linked to them
-	idle  [][2][]string // per wanted interface: idle Valid v4 / v6 addresses (take-over candidates)
-	node  *networkv1beta1.Node
-	pods  map[string]c03cloud.PodView
-	rt    *networkv1beta1.NodeRuntime
-	cl    client.Client
-	cloud *c03cloud.Cloud
+	takeover []string      // pods that report an address the record has not linked to them
+	idle     [][2][]string // per wanted interface: idle Valid v4 / v6 addresses (take-over candidates)
+	node     *networkv1beta1.Node
+	pods     map[string]c03cloud.PodView
+	rt       *networkv1beta1.NodeRuntime
+	cl       client.Client
+	cloud    *c03cloud.Cloud
 }
 
 func c03fBuild(s c03fScenario) *c03fWorld {
@@ -453,6 +459,42 @@ func c03fRun(c *vt.Ctx, s c03fScenario) {
 
 	before := c03cloud.CopyENIs(w.node.Status.NetworkInterfaces)
 	w.cloud.SetFaults(s.Faults)
+	if s.Replay > 0 {
+		ids := make([]string, 0, len(before))
+		for id := range before {
+			ids = append(ids, id)
+		}
+		sort.Strings(ids)
+		for _, id := range ids {
+			e := before[id]
+			if e.Status != aliyunClient.ENIStatusInUse {
+				continue
+			}
+			for fam, m := range []map[string]*networkv1beta1.IP{e.IPv4, e.IPv6} {
+				var first, second []string
+				keys := make([]string, 0, len(m))
+				for k := range m {
+					keys = append(keys, k)
+				}
+				sort.Strings(keys)
+				for _, k := range keys {
+					ip := m[k]
+					if ip.Primary || ip.Status != networkv1beta1.IPStatusValid {
+						continue
+					}
+					if (ip.PodID != "") == (s.Replay == 1) {
+						first = append(first, k)
+					} else {
+						second = append(second, k)
+					}
+				}
+				cand := append(first, second...)
+				for n := 1; n <= len(cand) && n <= 4; n++ {
+					w.cloud.ArmReplay(fam == 1, id, cand[:n])
+				}
+			}
+		}
+	}
 
 	podReqs, err := n.getPods(ctx, w.node)
 	if err != nil {
@@ -638,6 +680,23 @@ func c03fRun(c *vt.Ctx, s c03fScenario) {
 	for _, cl := range calls {
 		if cl.Op == "UnAssignV4" || cl.Op == "UnAssignV6" || cl.Op == "Delete" {
 			c.Label("cloud:" + cl.Op)
+		}
+		if cl.Op == "AssignV4(replay)" || cl.Op == "AssignV6(replay)" {
+			bound := false
+			for _, e := range before {
+				for _, m := range []map[string]*networkv1beta1.IP{e.IPv4, e.IPv6} {
+					for _, x := range cl.IPs {
+						if ip := m[x]; ip != nil && ip.PodID != "" {
+							bound = true
+						}
+					}
+				}
+			}
+			if bound {
+				c.Label("cloud:assign-replayed-a-bound-address")
+			} else {
+				c.Label("cloud:assign-replayed-idle-addresses")
+			}
 		}
 	}
 }
